@@ -406,15 +406,9 @@ bool StepExtended(ScriptExecutionEnvironment& env, CScript::const_iterator& pc, 
         if (stack.size() < 1) return set_error(serror, SCRIPT_ERR_INVALID_STACK_OPERATION);
         vch1 = stacktop(-1);
         {
-            // multiply by 2 = left-shift one bit
-            uint16_t carry = 0;
-            for (size_t i = 0; i < vch1.size(); ++i) {
-                uint16_t v = vch1[i];
-                v = (v << 1) | carry;
-                carry = v >> 8;
-                vch1[i] = v & 0xff;
-            }
-            if (carry) vch1.push_back(carry);
+            CScriptNum num(vch1, env.fRequireMinimal, 5);
+            num = num * CScriptNum(2);
+            vch1 = num.getvch();
         }
         popstack(stack);
         pushstack(stack, vch1);
